@@ -64,6 +64,8 @@ def run(ctx):
     rule_cfg(ctx, F)
     rule_synth(ctx, F)
     rule_timer(ctx, F)
+    rule_timer_insert(ctx, F)
+    rule_budget(ctx, F)
     rule_xfr(ctx, F)
     rule_raise(ctx, F)
 
@@ -490,6 +492,28 @@ def rule_synth(ctx, F):
         ctx.ob(R, b, "the made-up reply is marked as a response", any(v in (1, True) for v in qr),
                "%s builds a reply from the request's header and never sets QR: the caller gets Ok(message) that is not a "
                "response and does not satisfy is_answer for its own request" % p.split("::")[-2])
+        # ... and carries the request's ID: the whole header is taken from the request, or set_id gets the request's id()
+        hdr_copied = False
+        for bi in b.reachable_blocks():
+            for st in b.blocks[bi]["s"]:
+                if st[0] == "=" and len(st[1]) >= 2 and "*" in st[1]:
+                    tm = deep_strip(b.term_of_rvalue(st[2]))
+                    if tm[0] == "call" and re.search(r"Message::<.*>::header$|Message::header$", tm[1] or "") and \
+                            any(x[0] == "arg" and x[1] == 1 for x in walk(tm)):
+                        dst = deep_strip(b.term_of_operand(["c", [st[1][0]]]))
+                        if any(x[0] == "call" and (x[1] or "").endswith("::header_mut") for x in walk(dst)):
+                            hdr_copied = True
+        id_set = False
+        for _, t in b.calls():
+            if (t["fn"] or "").endswith("Header::set_id") and len(t["args"]) >= 2:
+                tm = deep_strip(b.term_of_operand(t["args"][1]))
+                if any(x[0] == "call" and (x[1] or "").endswith("Header::id") for x in walk(tm)) and \
+                        any(x[0] == "arg" and x[1] == 1 for x in walk(tm)):
+                    id_set = True
+        ctx.ob(R, b, "the made-up reply carries the request's ID", hdr_copied or id_set,
+               "%s builds its reply header without taking the ID from the request (neither the request's header as a whole nor "
+               "set_id(request.header().id())): the caller gets an Ok(message) whose ID is 0, not the ID of its request"
+               % p.split("::")[-2])
     ctx.ob(R, "net::client", "scanned", n >= 1, "no reply synthesised from a request found any more", nontrivial=False)
 
 
@@ -526,6 +550,108 @@ def rule_timer(ctx, F):
                "demux_reply restarts the response timer for every message read from the stream, before it looks the ID up: a "
                "peer that keeps sending well-formed messages with unknown IDs keeps every pending request waiting for ever, "
                "past its response timeout", b.where(bi))
+
+
+def rule_timer_insert(ctx, F):
+    """second clause of C15.timer: accepting a new request does not restart a response timer that is already running
+    for an older, still unanswered request (only an idle connection, or an active one without timer, gets a fresh one)"""
+    R = "C15.timer"
+    bs = [b for p, b in F.bodies.items() if re.search(r"^net::client::stream::Transport::<.*>::insert_req$", p)]
+    if not ctx.anchor(R, "stream::Transport::insert_req", len(bs) == 1):
+        return
+    b = bs[0]
+    resets = []
+    for bi in b.reachable_blocks():
+        if b.blocks[bi].get("c"):
+            continue
+        for st in b.blocks[bi]["s"]:
+            if st[0] == "=" and st[2][0] == "agg" and st[2][1][0] == "adt" and st[2][1][1].endswith("stream::ConnState") \
+                    and "Active" in str(st[2][1]):
+                tm = deep_strip(b.term_of_rvalue(st[2]))
+                if any(s[0] == "call" and (s[1] or "").endswith("Instant::now") for s in walk(tm)):
+                    resets.append(bi)
+    if not ctx.anchor(R, "timer start (ConnState::Active(Some(Instant::now()))) in insert_req", len(resets) >= 1, b.where()):
+        return
+    for n, bi in enumerate(sorted(resets)):
+        variants = set()
+        no_timer = False
+        for tm, out in outcome_facts(b, bi, F):
+            sh = show(deep_strip(tm))
+            if isinstance(out, tuple) and out[0] == "variant" and "state" in sh:
+                variants.add(out[1])
+            if isinstance(out, tuple) and out[0] == "variant" and out[1] == "None":
+                no_timer = True
+        for tm, v in bool_facts(b, bi, F):
+            sh = show(tm)
+            if ("is_none(" in sh and v is True) or ("is_some(" in sh and v is False):
+                no_timer = True
+        ok = ("Active" not in variants and bool(variants)) or no_timer
+        ctx.ob(R, b, "a new request starts the response timer only if none is running #%d" % (n + 1), ok,
+               "insert_req sets a fresh response timer on a connection that is Active%s: every new request pushes the "
+               "deadline of the older, still unanswered requests back, so a lost answer never times out while the caller keeps "
+               "sending (state variants on this path: %s)" % ("" if "Active" in variants else " (or in an unknown state)", sorted(variants)),
+               b.where(bi))
+
+
+def _lin_in(t, is_var):
+    """(coefficient of the variable, constant) of a term linear in one variable, or None"""
+    t = deep_strip(t)
+    if is_var(t):
+        return (1, 0)
+    cv = const_value(t)
+    if cv is not None:
+        return (0, cv)
+    if t[0] == "cast":
+        return _lin_in(t[2], is_var)
+    if t[0] == "call" and t[1] and re.search(r"::(from|into|saturating_add|wrapping_add)$", t[1]) and t[3]:
+        if len(t[3]) == 1:
+            return _lin_in(t[3][0], is_var)
+        a, c = _lin_in(t[3][0], is_var), _lin_in(t[3][1], is_var)
+        return None if a is None or c is None else (a[0] + c[0], a[1] + c[1])
+    if t[0] == "bin" and t[1].replace("WithOverflow", "") in ("Add", "Sub"):
+        a, c = _lin_in(t[2], is_var), _lin_in(t[3], is_var)
+        if a is None or c is None:
+            return None
+        sg = 1 if t[1].startswith("Add") else -1
+        return (a[0] + sg * c[0], a[1] + sg * c[1])
+    return None
+
+
+def rule_budget(ctx, F):
+    """The datagram transport sends a request at most 1 + max_retries times: the transmission loop runs over a range
+    whose number of elements, as a linear form in the configured max_retries, is exactly max_retries + 1."""
+    R = "C15.budget"
+    ctx.floor(R, 1)
+    bs = [b for p, b in F.bodies.items() if re.search(r"^net::client::dgram::Connection::<.*>::handle_request_impl::\{closure#0\}$", p)]
+    if not ctx.anchor(R, "dgram::Connection::handle_request_impl", len(bs) == 1):
+        return
+    b = bs[0]
+    is_var = lambda t: t[0] == "field" and t[-1] == "max_retries"
+    loops = []
+    for bb, t in b.calls():
+        if not re.search(r"IntoIterator::into_iter$", t["fn"] or ""):
+            continue
+        tm = deep_strip(b.term_of_operand(t["args"][0]))
+        if not any(is_var(x) for x in walk(tm) if isinstance(x, tuple) and x):
+            continue
+        count = None
+        if tm[0] == "agg" and tm[1][0] == "adt" and str(tm[1][1]).endswith("ops::Range"):
+            lo, hi = _lin_in(tm[2][0], is_var), _lin_in(tm[2][1], is_var)
+            if lo and hi:
+                count = (hi[0] - lo[0], hi[1] - lo[1])
+        elif tm[0] == "call" and "RangeInclusive" in (tm[1] or "") and len(tm[3]) == 2:
+            lo, hi = _lin_in(tm[3][0], is_var), _lin_in(tm[3][1], is_var)
+            if lo and hi:
+                count = (hi[0] - lo[0], hi[1] - lo[1] + 1)
+        loops.append((bb, count, show(tm)))
+    if not ctx.anchor(R, "the transmission loop over a range built from max_retries", len(loops) == 1, b.where()):
+        return
+    bb, count, sh = loops[0]
+    ctx.ob(R, b, "transmissions = max_retries + 1", count == (1, 1),
+           "the transmission loop of the datagram transport runs over %s, i.e. %s iterations: the request is sent (and "
+           "waited for) %s than the configured budget of 1 + max_retries allows"
+           % (sh[:140], "an unrecognised number of" if count is None else "%d*max_retries + %d" % count,
+              "a different number of times" if count is None else ("more often" if count > (1, 1) else "less often")), b.where(bb))
 
 
 def rule_xfr(ctx, F):
